@@ -192,7 +192,7 @@ func runC04(c *core.Ctx) {
 						}
 					}
 				case *ssa.Call: // result of a slice helper of the library (what the persistent stream methods delegate to)
-					if g := core.Callee(&y.Call); g != nil && g.Pkg == p.Fpgo && g.Signature.Recv() == nil && ei.Of[g] != nil && len(ei.Of[g].Ret) > 0 {
+					if g := core.Callee(&y.Call); g != nil && p.InRepo(g) && g.Signature.Recv() == nil && ei.Of[g] != nil && len(ei.Of[g].Ret) > 0 {
 						if ei.Of[g].Writes == 0 && ei.Of[g].Ret[0]&^core.LocFresh == 0 {
 							okS, detail = true, "fresh result of the non-writing helper "+core.FuncName(g)
 						} else {
